@@ -41,6 +41,7 @@ type SliceV struct {
 	len, cap int
 	isNil    bool
 	blob     *BlobObj // opaque encoded message (codec model); len is 1
+	lazy     *StrV    // bytes of a lazily formatted string (length unknown)
 }
 
 // StrV: concrete string s, or symbolic bytes (fixed length) in sym.
@@ -370,6 +371,9 @@ func (s SliceV) elemPtr(i int) PtrV {
 }
 func (s SliceV) get(i int) Value { return s.elemPtr(i).load() }
 func (s SliceV) elems() []Value {
+	if s.lazy != nil {
+		panic(unsupported{"byte access to a lazily formatted string"})
+	}
 	if s.blob != nil {
 		panic(unsupported{"byte access to an encoded message (protobuf wire format is not modelled)"})
 	}
